@@ -145,9 +145,16 @@ func candidateInputs(model map[string]string, params []string, queryFile string)
 // replayStrings runs the real function on the model's inputs (then on inputs derived from the failed
 // query's constants). It returns (confirmed, report).
 func replayStrings(repo, fn string, solverOutput string, queryFile string) (bool, string) {
+	c, _, r := replayStrings3(repo, fn, solverOutput, queryFile)
+	return c, r
+}
+
+// replayStrings3 also reports whether the replay ran and the real function agreed with the oracle on every
+// candidate input (clean): the solver's refutation then did not replay.
+func replayStrings3(repo, fn string, solverOutput string, queryFile string) (confirmed, clean bool, report string) {
 	rp, ok := stringReplayers[fn]
 	if !ok {
-		return false, ""
+		return false, false, ""
 	}
 	vals := map[string]string{}
 	for _, m := range modelStrRe.FindAllStringSubmatch(solverOutput, -1) {
@@ -177,7 +184,7 @@ func replayStrings(repo, fn string, solverOutput string, queryFile string) (bool
 		rp.pkg, lit.String(), bind.String(), rp.body)
 	tmp, err := os.MkdirTemp("", "verif-replay1-")
 	if err != nil {
-		return false, err.Error()
+		return false, false, err.Error()
 	}
 	defer os.RemoveAll(tmp)
 	testFile := filepath.Join(tmp, "replay_test.go")
@@ -197,6 +204,8 @@ func replayStrings(repo, fn string, solverOutput string, queryFile string) (bool
 	if len(short) > 3000 {
 		short = short[:3000] + "\n... (" + strconv.Itoa(len(cands)) + " candidate inputs)"
 	}
-	report := fmt.Sprintf("inputs from the solver's model: %v; %d candidate inputs in total\ngo test -overlay ... -run TestGovcReplay ./%s\n%s\n--- test source ---\n%s", vals, len(cands), rp.pkgDir, firstLines(out.String(), 20), short)
-	return err != nil && strings.Contains(out.String(), "--- FAIL: TestGovcReplay"), report
+	report = fmt.Sprintf("inputs from the solver's model: %v; %d candidate inputs in total\ngo test -overlay ... -run TestGovcReplay ./%s\n%s\n--- test source ---\n%s", vals, len(cands), rp.pkgDir, firstLines(out.String(), 20), short)
+	confirmed = err != nil && strings.Contains(out.String(), "--- FAIL: TestGovcReplay")
+	clean = err == nil && strings.Contains(out.String(), "ok") && len(cands) >= 1
+	return confirmed, clean, report
 }
